@@ -125,6 +125,7 @@ func (fr *Frame) execAppend(c *ssa.CallCommon, resT types.Type, st *State, r str
 	newLen := vc.bind(nameOf+"_len", SInt, app("+", s[2], n))
 	inplace := vc.bindBool(nameOf+"_inplace", app("<=", newLen, s[3]))
 	newRef := vc.allocRef(st, nameOf)
+	vc.noteAllocType(fr.l(), newRef, elem, r)
 	newCap := vc.fresh(nameOf+"_cap", SInt)
 	vc.assert(app(">=", newCap, newLen))
 	R := vc.bind(nameOf+"_ref", SInt, sIte(inplace, s[0], newRef))
